@@ -5,6 +5,7 @@ import (
 	"errors"
 	"fmt"
 	"io"
+	"sort"
 	"strings"
 	"sync"
 	"time"
@@ -236,8 +237,10 @@ func (d ewmaDecor) EwmaUpdate(n int64, dur time.Duration) {
 
 type listenEwmaDecor struct{ *probeDecor }
 
-func (d listenEwmaDecor) OnShutdown()                         { d.x.Shut[d.name]++ }
-func (d listenEwmaDecor) EwmaUpdate(n int64, dur time.Duration) { d.x.Note("ewma %s n=%d dur=%v", d.name, n, dur) }
+func (d listenEwmaDecor) OnShutdown() { d.x.Shut[d.name]++ }
+func (d listenEwmaDecor) EwmaUpdate(n int64, dur time.Duration) {
+	d.x.Note("ewma %s n=%d dur=%v", d.name, n, dur)
+}
 
 type userWrap struct{ decor.Decorator }
 
@@ -509,7 +512,16 @@ func (sp *Spec) Run(x *X) {
 	}
 	wg.Wait()
 	if sp.Notifier && !sp.NoWait {
-		x.Notified = append(x.Notified, <-r.notify)
+		v := <-r.notify
+		x.Notified = append(x.Notified, v)
+		if bars, ok := v.([]*mpb.Bar); ok {
+			ids := []int{}
+			for _, b := range bars {
+				ids = append(ids, b.ID())
+			}
+			sort.Ints(ids)
+			x.NotifiedIDs = append(x.NotifiedIDs, ids)
+		}
 	}
 	for _, op := range sp.Late {
 		r.do(0, op)
